@@ -30,7 +30,17 @@ pub(super) fn execute_skip<'a, S: GraphSnapshot + 'a>(
         Err(err) => return PlanIterator::Dynamic(Box::new(std::iter::once(Err(err)))),
     };
     let input_iter = execute_plan(snapshot, input, params);
-    PlanIterator::Dynamic(Box::new(input_iter.skip(skip)))
+    // Only rows count towards the skipped prefix: an error from the input has to reach the
+    // caller instead of being skipped like a row.
+    let mut remaining = skip;
+    PlanIterator::Dynamic(Box::new(input_iter.filter(move |item| {
+        if item.is_ok() && remaining > 0 {
+            remaining -= 1;
+            false
+        } else {
+            true
+        }
+    })))
 }
 
 pub(super) fn execute_limit<'a, S: GraphSnapshot + 'a>(
